@@ -133,7 +133,9 @@ func runCheck(eng *Engine, args []string, tier string, timeout, par int) int {
 				}
 				continue
 			}
-			jobs = append(jobs, job{fn, c})
+			for _, cc := range c.cases() {
+				jobs = append(jobs, job{fn, cc})
+			}
 		}
 	}
 	var all []*Obl
